@@ -296,6 +296,15 @@ func genCerts(rt *rapid.T, era Era, p Params, ss *StSpec, max int, twice bool) [
 		}
 		if ok {
 			out = append(out, c)
+			// churn: re-register and deregister the same credential again, so that
+			// one credential is refunded twice within the transaction
+			if (kind == CStakeDereg || kind == CUnreg) && rapid.IntRange(0, 2).Draw(rt, "churn") == 0 {
+				rk, dk := CStakeReg, CStakeDereg
+				if era >= Dijkstra || (era == Conway && rapid.Bool().Draw(rt, "churnNewKinds")) {
+					rk, dk = CReg, CUnreg
+				}
+				out = append(out, Cert{Kind: rk, Key: c.Key, Amount: p.KeyDeposit}, Cert{Kind: dk, Key: c.Key, Amount: p.KeyDeposit})
+			}
 		}
 	}
 	return out
